@@ -1452,6 +1452,19 @@ func c17BilevelBody(r *fw.Rec, W, H int, sample bool, ctx map[string]interface{}
 			r.Tally("bin_images_one_side_below_40")
 		}
 	}
+	// binarising reads a luminance source: afterwards the source still shows the picture it showed before
+	{
+		var c, d string
+		if msg, _, panicked := fw.Guard(func() { c, d = c17CheckView(s.src, s.v, rng) }); panicked {
+			c, d = "panic", "panic: "+msg
+		}
+		if c != "" {
+			r.Violation("model-mismatch", "source-changed-by-binarising:"+c, fmt.Sprintf("%s (%s): after GetBlackMatrix / GetBlackRow of both binarisers the luminance source no longer shows its picture: %s", s.desc, pname, d),
+				map[string]interface{}{"kind": c17KindName[kind], "w": W, "h": H, "pattern": pname, "source": s.desc})
+			return false
+		}
+		r.Tally("bin_source_unchanged_after_binarising")
+	}
 	r.Tally("bin_images_" + pname)
 	r.Tally("bin_source_" + c17KindName[kind])
 	r.NontrivialH(c17Hash(fmt.Sprintf("b/%d/%d/%d/%s/%d", kind, W, H, pname, rng.Uint64())))
